@@ -177,7 +177,7 @@ class C08(EHistCheck):
     quick_depth = 3
     thorough_depth = 5
     chunksize = 16
-    quick_cap_s = 45
+    quick_cap_s = 300
     thorough_cap_s = 40 * 60
     rule = ("breadth-first search over histories of constructions, aliasings, passing to / returning from functions, storing in / reading "
             "from a list, method calls (incl. a method returning Self, chained calls - also through methods declared -> Self that return another object -, a method calling another method), field reads and "
